@@ -26,6 +26,7 @@ type effectCtx struct {
 	ctxType  *types.Named              // rules.Context (calls on it are primitives)
 	selfType *types.Named              // the rule type whose helpers are inlined
 	params   map[types.Object]bool     // parameters/receivers of the summarised function and inlined helpers (kept by name)
+	frozen   map[types.Object]string   // parameter -> the name it had on the reference tree (frozenParamNames)
 	locals   map[types.Object]string   // local variables, renamed $v1,$v2,… in order of first appearance (robust to renames)
 	aliases  map[types.Object]ast.Expr // v := &x.f  (pointer to a field path): uses of v render as the path
 	aliasInf map[types.Object]*types.Info
@@ -44,12 +45,29 @@ func (e *effectCtx) addParams(f *types.Func) {
 	for i := 0; i < sig.Params().Len(); i++ {
 		e.params[sig.Params().At(i)] = true
 	}
+	// a renamed parameter keeps the name the reference specifications use
+	if names, ok := frozenParamNames[core.ObjName(f)]; ok && len(names) == 1+sig.Params().Len() {
+		if e.frozen == nil {
+			e.frozen = map[types.Object]string{}
+		}
+		if sig.Recv() != nil && names[0] != "" && names[0] != "_" {
+			e.frozen[sig.Recv()] = names[0]
+		}
+		for i := 0; i < sig.Params().Len(); i++ {
+			if names[i+1] != "" && names[i+1] != "_" {
+				e.frozen[sig.Params().At(i)] = names[i+1]
+			}
+		}
+	}
 	for i := 0; i < sig.Results().Len(); i++ {
 		e.params[sig.Results().At(i)] = true
 	}
 }
 
 func (e *effectCtx) varName(o *types.Var) string {
+	if n, ok := e.frozen[o]; ok {
+		return "$" + n
+	}
 	if e.params == nil || e.params[o] {
 		return "$" + o.Name()
 	}
